@@ -207,8 +207,10 @@ package protocol
 //@ func newQueue
 //@   nopanic[C05,C17]
 //@   allocates
-//@   ensures result != nil && fresh(result) && forall(n, round.Number, (2 <= n && n <= rounds) ==> result[n] != nil)
-//@   loop 1: invariant q != nil && fresh(q) && 2 <= i && forall(n, round.Number, (2 <= n && n < i) ==> q[n] != nil)
+// a slot map for every round from 2 to the announced final round (C07: early messages are kept; C05, C04: no round is
+// taken for complete because it has no slots)
+//@   ensures[C07,C05,C04] result != nil && fresh(result) && forall(n, round.Number, (2 <= n && n <= rounds) ==> result[n] != nil)
+//@   loop 1: invariant[C07,C05,C04] q != nil && fresh(q) && 2 <= i && forall(n, round.Number, (2 <= n && n < i) ==> q[n] != nil)
 //@   modifies newobjects:MD_map_pkg_party_ID_ppkg_protocol_Message, newobjects:MV_map_pkg_party_ID_ppkg_protocol_Message, newobjects:MD_map_internal_round_Number_map_pkg_party_ID_ppkg_protocol_Message, newobjects:MV_map_internal_round_Number_map_pkg_party_ID_ppkg_protocol_Message
 
 // ---------------------------------------------------------------- TwoPartyHandler
